@@ -55,12 +55,20 @@ class _L(EventListener):
         self.runner.on_notify(self, event)
 
 
+class _LEmpty(_L):
+    """a listener that is FALSY (a collecting listener whose collection is still empty): a listener is identified
+    by its object, never by its truth value"""
+
+    def __len__(self):
+        return 0
+
+
 class Base:
     def __init__(self, type_names, listener_names, producer_factory=EventProducer):
         self.types = fresh_types(type_names)
         self.tyname = {v: k for k, v in self.types.items()}
         self.prod = producer_factory()
-        self.ls = {n: _L(n, self) for n in listener_names}
+        self.ls = {n: (_LEmpty if k % 2 == 0 else _L)(n, self) for k, n in enumerate(listener_names)}
 
     def do_op(self, o):
         a = o["a"]
